@@ -22,16 +22,16 @@ import (
 )
 
 type SyncW struct {
-	Peers    int  `json:"peers"`  // >= 3
-	Prefix   int  `json:"prefix"` // shared blocks
-	ForkR    int  `json:"fork_r"` // requester's own blocks on top
-	Ahead    int  `json:"ahead"`  // peers' blocks beyond two rounds
-	Rounds   int  `json:"rounds"` // syncs in a row (the peers grow their chain in between)
-	Readers  int  `json:"readers"`
-	IPBase   int  `json:"ip_base"`
-	UseLast  bool `json:"use_last"`  // readers call LastBlock (off while the re-entrant read lock is a known finding)
-	UseBulk  bool `json:"use_bulk"`  // readers call GetBlockHeadersByHeights (off while the append race is a known finding)
-	Yield    int  `json:"yield"`
+	Peers   int  `json:"peers"`  // >= 3
+	Prefix  int  `json:"prefix"` // shared blocks
+	ForkR   int  `json:"fork_r"` // requester's own blocks on top
+	Ahead   int  `json:"ahead"`  // peers' blocks beyond two rounds
+	Rounds  int  `json:"rounds"` // syncs in a row (the peers grow their chain in between)
+	Readers int  `json:"readers"`
+	IPBase  int  `json:"ip_base"`
+	UseLast bool `json:"use_last"` // readers call LastBlock (off while the re-entrant read lock is a known finding)
+	UseBulk bool `json:"use_bulk"` // readers call GetBlockHeadersByHeights (off while the append race is a known finding)
+	Yield   int  `json:"yield"`
 }
 
 func connectNodes(a, b *node.Node) error {
